@@ -876,7 +876,7 @@ Proof.
 Qed.
 
 Lemma class_datetime tag (y : Z) mo d h mi s ctx : tag_ok_b tag = true ->
-  (0 <= y <= 9999)%Z -> ymd_ok y mo d = true -> hms_ok h mi s = true ->
+  (0 <= y)%Z -> ymd_ok y mo d = true -> hms_ok h mi s = true ->
   exists g, canon LTlv EDefault (TPrim PDateTime) tag (VDate y mo d h mi s) ctx = Some g.
 Proof.
   intros Ht Hy Hd Hh. destruct (datetime_roundtrip y mo d h mi s Hy Hd Hh) as [bs [He [Hdec Hl]]]. cbn [canon].
